@@ -362,7 +362,7 @@ class Histogram:
             if np.isnan(index):
                 raise ValueError("Bin number in remove_bin is NaN.")
 
-            if index < 0 or index >= len(self.bin_edges_):
+            if index < 0 or index >= self.number_of_bins_:
                 raise ValueError("Bin number in remove_bin is out of range.")
         else:
             raise TypeError("Bin number in remove_bin must be an integer.")
